@@ -545,13 +545,50 @@ R.add('L13.3', l133, lambda tier: [dict(kind=k, lim=l) for k in ('list', 'set', 
               'a collection of up to MAX_ARRAY_LENGTH members round-trips'],
       bounds='MAX_ARRAY_LENGTH set to 2 (thorough also 4) instead of 16384; members arbitrary distinct 64-bit ints')
 
+# ------------------------------------------------------------------ L13.4 two types with the same short name
+def mk_same_name(S, SE):
+    """two enums that share their short name (nested in different owners of one module): distinct types keep distinct
+    type ids.  (Message classes must have unique names - the registry refuses a second one - so only enums can collide.)"""
+    _HCOUNT[0] += 1
+    tag = '%d_%d' % (os.getpid(), _HCOUNT[0])
+    ns = {}
+    src = ('class Door%(t)s:\n'
+           '    class State(SE):\n        SHUT = 1\n        OPEN = 2\n        LOCKED = 3\n'
+           'class Light%(t)s:\n'
+           '    class State(SE):\n        OFF = 1\n        ON = 2\n'
+           ) % dict(t=tag)
+    exec(src, {'S': S, 'SE': SE, '__name__': __name__}, ns)
+    return ns['Door' + tag], ns['Light' + tag]
+
+
+def l134():
+    """types are told apart by identity, not by their short name: an enum member / message instance decodes to its own
+    type whichever same-named type was defined or used first"""
+    Door, Light = mk_same_name(Serializable, ser.SerializableEnum)
+    vals = [Door.State.SHUT, Door.State.OPEN, Door.State.LOCKED, Light.State.OFF, Light.State.ON]
+    v = vals[choose(len(vals), 'member')]
+    try:
+        st = BytesIO()
+        ser.serialize_value(st, [v, 7])
+        w, seven = ser.deserialize_value(BytesIO(st.getvalue()))
+    except Exception as ex:
+        core.fail('decoding a produced encoding raised', error=type(ex).__name__)
+    check(type(w) is type(v) and w.value == v.value, 'an enum member decodes to the same member of its own enum type')
+    check(seven == 7, 'the next value of the stream decodes')
+
+
+R.add('L13.4', l134, [{}], replay='GENERIC',
+      desc='two enums that share their short name (nested in different owners of one module): every member decodes to the same member of its own type',
+      expect=['an enum member decodes to the same member of its own enum type'],
+      bounds='2 enums (3 + 2 members), every member')
+
 import sys as _sys  # noqa: E402
 from .common import generic_replay  # noqa: E402
 for _l in R.lemmas.values():
     if _l.replay == 'GENERIC':
         _l.replay = generic_replay(_l.func, [_sys.modules[__name__]])
 
-for _lid in ['L13.1', 'L13.2', 'L13.3']:
+for _lid in ['L13.1', 'L13.2', 'L13.3', 'L13.4']:
     if _lid in R.lemmas:
         R.lemmas[_lid].api = True
 
